@@ -524,6 +524,16 @@ partial def anteLoop (stdin : IO.FS.Stream) (a : AState) : IO Unit := do
       for d in dumpAnte a' do
         IO.println ("| " ++ d)
       anteLoop stdin a'
+    else if l.startsWith "setprices " then
+      -- governance sets the settlement gas prices: "denom:price,denom:price", kept in denomination order as sdk.DecCoins are
+      let ps := (((l.drop 10).toString.splitOn ",").filter (· != "")).map (fun p =>
+        let kv := p.splitOn ":"
+        ((kv.getD 0 "").toList, (decTok (kv.getD 1 "0")).toNat))
+      let a' : AState := { a with prices := sortBy (fun x y => strLt x.1 y.1) ps }
+      IO.println "< ok"
+      for d in dumpAnte a' do
+        IO.println ("| " ++ d)
+      anteLoop stdin a'
     else match parseOp l with
       | none =>
         IO.println "< bad-op"
